@@ -234,7 +234,8 @@ impl World for AddrWorld {
                 let mut k = 0;
                 for pos in data_start..n {
                     for c in &alpha {
-                        if c.eq_ignore_ascii_case(&orig[pos]) {
+                        // (with other_case the same symbol in the other letter case IS a changed string: mixed case)
+                        if *c == orig[pos] || (!case.other_case && c.eq_ignore_ascii_case(&orig[pos])) {
                             continue;
                         }
                         self.try_one(ctx, orig, &[(pos, *c)], "C17.data1");
@@ -277,7 +278,7 @@ impl World for AddrWorld {
                     }
                     let c1 = *p.pick(&alpha);
                     let c2 = *p.pick(&alpha);
-                    if c1.eq_ignore_ascii_case(&orig[i]) || c2.eq_ignore_ascii_case(&orig[j]) {
+                    if c1 == orig[i] || c2 == orig[j] || (!case.other_case && (c1.eq_ignore_ascii_case(&orig[i]) || c2.eq_ignore_ascii_case(&orig[j]))) {
                         continue;
                     }
                     self.try_one(ctx, orig, &[(i, c1), (j, c2)], "C17.data2");
